@@ -599,9 +599,10 @@ def classify_match(r):
 
 
 def strat_match(tier):
+    # (sources above 24 atoms made single reference searches run for an hour: bounded by size, never by time)
     i = st.integers(0, 1000)
     return st.fixed_dictionaries({
-        "graph": _graph_recipe(24 if tier == "quick" else 40), "mode": st.sampled_from(["wildcard", "wildcard", "own_types", "absent"]),
+        "graph": _graph_recipe(24), "mode": st.sampled_from(["wildcard", "wildcard", "own_types", "absent"]),
         "seed": i, "size": i, "grow": st.lists(i, min_size=5, max_size=5), "wild": st.integers(0, 63), "shuffle": st.booleans(), "typed": st.sampled_from([0, 1, 2]), "two_piece": st.sampled_from([0, 0, 0, 1, 2, 3, 4]),
         "edit": st.one_of(st.none(), st.tuples(st.sampled_from(["del_bond", "connect", "element", "move_bond", "move_bond"]), i, i).map(list)),
     })
